@@ -139,6 +139,37 @@ def extreme_case(ctx, lw, rng):
     only visible state is the empty one."""
     State, emu = lw.State, lw.emulator
     from ..gen import haar
+    if rng.random() < 0.3:
+        # a large default output basis (120 - 500 states) on a circuit with several photon-carrying heralds
+        n_tot = int(rng.choice([8, 9, 10]))
+        c = lw.Unitary(haar(rng, n_tot))
+        log = [["unitary", n_tot]]
+        n_h = int(rng.choice([1, 2, 2, 3]))
+        hm = [int(x) for x in rng.choice(n_tot, size=n_h, replace=False)]
+        ho = [int(x) for x in rng.permutation(hm)] if rng.random() < 0.5 else list(hm)
+        hp = [int(x) for x in rng.choice([0, 1, 1, 2], size=n_h)]
+        if sum(hp) > 3:
+            hp = [1] * n_h
+        for a_, b_, n_ in zip(hm, ho, hp):
+            c.herald(n_, a_, b_)
+            log.append(["herald", n_, a_, b_])
+        if rng.random() < 0.3:
+            c.loss(int(rng.integers(c.input_modes)), float(rng.uniform(0.05, 0.5)))
+            log.append(["loss"])
+        k = c.input_modes
+        nph = int(rng.choice([3, 4])) if sum(hp) <= 2 else 3
+        s_in = State(random_state(rng, k, nph))
+        ctx.bucket("large_default_basis")
+        if sum(1 for x in hp if x) >= 2:
+            ctx.bucket("large_default_basis_two_photon_heralds")
+        case = {"circuit": log, "inputs": [s_in.s], "outputs": None}
+        try:
+            emu.Simulator(c).simulate(s_in)
+        except Exception as e:  # noqa: BLE001 - judged by the monitor
+            ctx.count("simulate_raised:" + type(e).__name__)
+        ctx.case(("large_basis", k, nph, tuple(hp)), True, sample=case)
+        drain_into(ctx, case)
+        return
     if rng.random() < 0.7:
         k = int(rng.choice([2, 2, 3]))
         c = lw.Unitary(haar(rng, k))
